@@ -382,9 +382,11 @@ def setup_config(ctx):
 def run(ctx):
     ctx.rule = RULE
     ctx.assumptions = [
-        "width modifiers / gaussian limits come from harness/config/priors/vlib.yaml (both modifier kinds, finite and infinite limits); "
-        "a shared prior whose places are configured differently may take the configuration of any of its places",
-        "result.model / model_absolute / model_relative / model_bounded call the methods exercised here with the result's medians",
+        "width modifiers / gaussian limits come from harness/config/priors/vlib.yaml (both modifier kinds, finite and infinite limits) and are "
+        "looked up by the Lean model in tables generated from the files the library loaded; the property oracle lets a shared prior whose places "
+        "are configured differently take the configuration of any of its places, the correspondence pins the library's choice exactly",
+        "Result.model / model_absolute / model_relative / model_bounded are exercised through a SamplesSummary built from path-keyed samples "
+        "(median and maximum-likelihood vectors given different values); copy_with_fixed_priors / take_attributes are not exercised",
     ]
     setup_config(ctx)
     for f in sorted((VERIF / "corpus" / "C12").glob("*.json")):
